@@ -266,3 +266,26 @@ Theorem C02_rtl_table_lookup :
   In "channel_o=channel_i" rtl_id_branch_stmts.
 Proof. repeat split; try reflexivity; [exists "id_table_result"; split; [reflexivity|vm_compute; tauto]|vm_compute; tauto]. Qed.
 Print Assumptions C02_rtl_table_lookup.
+
+(* non-vacuity: the remaining hypotheses hold on the star, the 2x2 mesh and the tree example (all side conditions do,
+   the derived ones included -- the binary's evaluation of them agrees with the theorems) *)
+From FV Require Import Examples Side.
+Example C02_min_nonvacuous :
+  forallb (fun d => match side_conditions sp_nx d with
+                    | Ok bs => forallb (fun b => b) bs && Nat.eqb (length bs) 9
+                    | Err _ => false
+                    end) [ex_star ID; ex_mesh ID; ex_tree ID; ex_star SRC; ex_tree SRC] = true.
+Proof. vm_compute. reflexivity. Qed.
+
+(* where responses are sent: in the network interfaces (axi and narrow-wide chimney, branch gen_dst_field, from the RTL
+   text each run) the destination of a B / R flit is the SOURCE id carried by the request it answers, and the destination
+   of a request is the decoder's result -- which is why C02 quantifies over "a manager (manager-only endpoints included)
+   for a subordinate's response" and walks the response network with the requester's own identity *)
+Theorem C02_rtl_response_destination :
+  (In "dst_id[AxiB]=aw_out_hdr_out.hdr.src_id" rtl_axi_dst_field /\ In "dst_id[AxiR]=ar_out_hdr_out.hdr.src_id" rtl_axi_dst_field /\
+   In "dst_id[AxiAw]=id_out[AxiAw]" rtl_axi_dst_field /\ In "dst_id[AxiAr]=id_out[AxiAr]" rtl_axi_dst_field) /\
+  (In "dst_id[NarrowB]=narrow_aw_buf_hdr_out.hdr.src_id" rtl_nw_dst_field /\ In "dst_id[NarrowR]=narrow_ar_buf_hdr_out.hdr.src_id" rtl_nw_dst_field /\
+   In "dst_id[WideB]=wide_aw_buf_hdr_out.hdr.src_id" rtl_nw_dst_field /\ In "dst_id[WideR]=wide_ar_buf_hdr_out.hdr.src_id" rtl_nw_dst_field /\
+   In "dst_id[NarrowAw]=id_out[NarrowAw]" rtl_nw_dst_field /\ In "dst_id[WideAr]=id_out[WideAr]" rtl_nw_dst_field).
+Proof. vm_compute. tauto. Qed.
+Print Assumptions C02_rtl_response_destination.
